@@ -51,7 +51,7 @@ func ruleP07IndexOrder(p *Prog, r *Report) {
 	}
 	// receive sites in the collector
 	nRecv := 0
-	eachInstr(async, func(in ssa.Instruction) {
+	eachVInstr(async, func(in ssa.Instruction) {
 		u, ok := in.(*ssa.UnOp)
 		if !ok || u.Op != token.ARROW {
 			return
